@@ -468,6 +468,7 @@ type Projection struct {
 	Lookup        map[int64]LookupView
 	Conns         map[string]ConnView
 	Authenticated []LookupView // ListAuthenticated, sorted by ConnID
+	SessionList   []string     // ids returned by SessionManager.ListConnections, sorted
 	Count         int          // GetActiveChannels (control + tunnel registries)
 	Stats         session.ConnectionStats
 }
@@ -505,6 +506,10 @@ func (s *Server) Project(clients []int64) Projection {
 		p.Authenticated = append(p.Authenticated, LookupView{Found: true, ConnID: cc.GetConnID(), ClientID: cc.GetClientID(), Authd: cc.IsAuthenticated()})
 	}
 	sort.Slice(p.Authenticated, func(i, j int) bool { return p.Authenticated[i].ConnID < p.Authenticated[j].ConnID })
+	for _, c := range s.SM.ListConnections() {
+		p.SessionList = append(p.SessionList, c.ID)
+	}
+	sort.Strings(p.SessionList)
 	p.Count = s.SM.GetActiveChannels()
 	p.Stats = s.SM.GetConnectionStats()
 	return p
